@@ -896,6 +896,14 @@ func runStress(rng *hx.Rng, r *hx.Run) result {
 	if g > 5 {
 		inflight = rng.Range(2, 5)
 	}
+	desc := fmt.Sprintf("stress g=%d inflight=%d wrap=%d close=%v views=%d filter=%d reenter=%v", g, inflight, wrap, allowClose, len(w.views), w.filter, w.reenter)
+
+	return runPlans(r, w, plans, inflight, desc)
+}
+
+// runPlans lets goroutine i execute plans[i] on the world (at most `inflight` calls at a time) and collects the history.
+func runPlans(r *hx.Run, w *world, plans [][]call, inflight int, desc string) result {
+	g := len(plans)
 	sem := make(chan struct{}, inflight)
 	recs := make([][]*hop, g)
 	start := make(chan struct{})
@@ -922,7 +930,7 @@ func runStress(rng *hx.Rng, r *hx.Run) result {
 	close(start)
 	done := make(chan struct{})
 	go func() { wg.Wait(); close(done) }()
-	res := result{desc: fmt.Sprintf("stress g=%d inflight=%d wrap=%d close=%v views=%d", g, inflight, wrap, allowClose, len(w.views))}
+	res := result{desc: desc}
 	select {
 	case <-done:
 	case <-time.After(20 * time.Second):
@@ -938,12 +946,128 @@ func runStress(rng *hx.Rng, r *hx.Run) result {
 	w.checkCallbacks(r, res.desc)
 	r.Count(fmt.Sprintf("goroutines:%02d", g))
 	r.Count(fmt.Sprintf("inflight:%02d", inflight))
-	r.Count(fmt.Sprintf("wrap:%d", wrap))
+	r.Count("wrap:" + strings.TrimPrefix(fieldOf(desc, "wrap="), ""))
 	r.CountN("debug-callbacks", int(w.cb.Load()))
 	r.CountN("calls-started-while-another-ran-on-the-same-view-object", int(w.sameView.Load()))
 	r.CountN("get/has-started-while-another-get/has-ran-on-the-same-view-object", int(w.sameRdr.Load()))
 
 	return res
+}
+
+// fieldOf returns the value of `key` (e.g. "wrap=") in a space-separated description, "" if absent.
+func fieldOf(desc, key string) string {
+	for _, f := range strings.Fields(desc) {
+		if v, ok := strings.CutPrefix(strings.TrimSuffix(f, ":"), key); ok {
+			return v
+		}
+	}
+
+	return ""
+}
+
+// replayStress re-runs the plans of a hang finding of the stress scenario (`x stress …` header + `x call …` lines): the same
+// calls by the same goroutines on a store wrapped the same way, up to 300 times (the schedule is not recorded) or until a
+// run hangs.  Returns false if the lines are not such a plan.
+func replayStress(r *hx.Run, lines []string) bool {
+	if len(lines) == 0 || !strings.HasPrefix(lines[0], "x stress ") {
+		return false
+	}
+	hdr := lines[0]
+	atoi := func(s string) int { n, _ := strconv.Atoi(s); return n }
+	wrap, inflight, views := atoi(fieldOf(hdr, "wrap=")), atoi(fieldOf(hdr, "inflight=")), atoi(fieldOf(hdr, "views="))
+	byG := map[int][]call{}
+	maxG := 0
+	for _, l := range lines[1:] {
+		f := strings.Fields(l)
+		if len(f) < 3 || f[0] != "x" || f[1] != "call" {
+			continue
+		}
+		c := call{}
+		for _, kv := range f[2:] {
+			switch {
+			case strings.HasPrefix(kv, "g="):
+				c.g = atoi(kv[2:])
+			case strings.HasPrefix(kv, "kind="):
+				c.kind = kv[5:]
+			case strings.HasPrefix(kv, "view="):
+				c.view = atoi(kv[5:])
+			case strings.HasPrefix(kv, "realm="):
+				c.realm = string(hx.UnHex(kv[6:]))
+			case strings.HasPrefix(kv, "key="):
+				c.key = string(hx.UnHex(kv[4:]))
+			case strings.HasPrefix(kv, "via="):
+				c.mk = kv[4:]
+			case strings.HasPrefix(kv, "val="):
+				c.val = string(hx.UnHex(kv[4:]))
+			case strings.HasPrefix(kv, "dir="):
+				c.dirTok = kv[4:]
+			case strings.HasPrefix(kv, "stop="):
+				c.stop = atoi(kv[5:])
+			case strings.HasPrefix(kv, "set:"), strings.HasPrefix(kv, "del:"):
+				kv2 := strings.SplitN(kv[4:], "=", 2)
+				wr := call{kind: kv[:3], key: string(hx.UnHex(kv2[0]))}
+				if len(kv2) == 2 {
+					wr.val = string(hx.UnHex(kv2[1]))
+				}
+				c.writes = append(c.writes, wr)
+			}
+		}
+		for j, sr := range sharedRealms {
+			if sr == c.realm {
+				c.fallback = j
+			}
+		}
+		if c.g < 1 {
+			continue
+		}
+		byG[c.g] = append(byG[c.g], c)
+		if c.g > maxG {
+			maxG = c.g
+		}
+	}
+	if maxG == 0 {
+		return false
+	}
+	plans := make([][]call, maxG)
+	for g, cs := range byG {
+		plans[g-1] = cs
+	}
+	if inflight < 1 {
+		inflight = maxG
+	}
+	var res result
+	for attempt := 0; attempt < 300; attempt++ {
+		rng, _ := r.Rng.Fork()
+		w := newWorld(rng, wrap)
+		for len(w.views) < views { // the second view object of realm 01
+			v, err := w.views[0].v.WithRealm([]byte{0x01})
+			if err != nil {
+				panic(err)
+			}
+			w.views = append(w.views, viewRec{v, "\x01"})
+		}
+		if len(w.views) > views && views >= 3 {
+			w.views = w.views[:views]
+		}
+		res = runPlans(r, w, plans, inflight, strings.TrimSuffix(strings.TrimPrefix(strings.SplitN(hdr, ": the plans", 2)[0], "x stress "), ":")+fmt.Sprintf(" replay-attempt=%d", attempt+1))
+		if res.timedOut {
+			break
+		}
+		if ok, _, _ := linearizable(sortedOps(res.ops), false); !ok {
+			break // not a hang this time, but a history the contract rejects: a failing input as well
+		}
+	}
+	r.CountN("replay-stress-attempts", 1)
+	emit(r, 0, res)
+
+	return true
+}
+
+func sortedOps(ops []*hop) []*hop {
+	out := append([]*hop(nil), ops...)
+	sort.Slice(out, func(i, j int) bool { return out[i].inv < out[j].inv })
+
+	return out
 }
 
 // parkStore forwards every call to the wrapped store; its Flush first runs a hook (once).  Placed under a flushkv wrapper it
@@ -1575,6 +1699,12 @@ func main() {
 
 			return
 		}
+		if len(plan) > 0 && replayStress(r, plan) {
+			// the replay of a hang of the stress scenario: the same plans by real goroutines, until it hangs again
+			r.Finish()
+
+			return
+		}
 		var ops []*hop
 		for _, l := range lines {
 			if o, ok := parseLine(l); ok {
@@ -1632,7 +1762,11 @@ func main() {
 			}
 		}
 	}
-	n := 2000 * r.Scale // thorough: 40 000 histories (60 000 took 19.8 min on the loaded machine once the probe, the fresh-view scenario and the flag calls were added)
+	n := 2000 * r.Scale
+	if r.Tier == "thorough" {
+		n = 36000 // 40 000 took 1 043 s wall on the loaded machine (harness 13 min under -race): keep a margin below 20 min
+	}
+	// history of the volume - thorough: 40 000 histories (60 000 took 19.8 min on the loaded machine once the probe, the fresh-view scenario and the flag calls were added)
 	hangs := 0
 	largeEvery, freshEvery := 50, 50
 	if r.Tier == "thorough" {
